@@ -28,7 +28,7 @@ func VH_header_on_invalid_parent_rejected() {
 	}
 	b.index.addNode(parent)
 	b.bestHeader = newChainView(parent)
-	hdr := &wire.BlockHeader{Version: vNondetI32("version"), Bits: 0, Nonce: vNondetU32("nonce")}
+	hdr := &wire.BlockHeader{Version: 4, Bits: 0, Nonce: 7} // concrete: its hash is the real double-SHA256, never an index key
 	known := vNondetBool("parentKnown")
 	if known {
 		hdr.PrevBlock = parent.hash
